@@ -575,7 +575,7 @@ def prepare_msgs(pool):
         if r is None:
             continue
         m = {'ref': e['ref'], 'hex': e['hex'], 'cls': e['cls'], 'json': r['json'], 'nsub': r['nsub'],
-             'key': r['key'], 'twin': e.get('twin'), 'marker': r['marker'],
+             'key': r['key'], 'twin': e.get('twin'), 'marker': r['marker'], 'exhibit': e.get('exhibit'),
              'opkind': 'wide' if (e.get('opkind') or '').startswith('wide') else None}
         m['qs'] = gen_queries(random.Random(int(_h(e['hex']), 16)), e)
         out.append(m)
@@ -917,6 +917,9 @@ def oracle_with(plan, tr, refs):
                 out.append({'property': 'C08', 'clause': clause, 'op': op['op'],
                             'got': _cls(got), 'exp': _cls(expi),
                             'raise_site': (ev.get('exc') or {}).get('site')})
+                ex = _exhibit_of(plan, op)
+                if ex:
+                    out[-1]['exhibit'] = ex
                 if op['op'] == 'decode':
                     bad_handles.add(i)
     return out
@@ -956,6 +959,21 @@ def _cls(r):
     if isinstance(r, str) and r.startswith('raise:'):
         return r
     return 'result'
+
+
+def _exhibit_of(plan, op):
+    """name of the exhibit (a hand-written input of a recorded, unrepaired defect) the operation works on"""
+    ms = []
+    if 'h' in op:
+        ms.append(plan['ops'][op['h']]['m'])
+    elif 'ms' in op:
+        ms.extend(op['ms'])
+    elif 'm' in op:
+        ms.append(op['m'])
+    for m in ms:
+        if plan['msgs'][m].get('exhibit'):
+            return plan['msgs'][m]['exhibit']
+    return None
 
 
 def _client_compiled(plan, op):
